@@ -5,6 +5,7 @@ image is symbolic; the returned Tags are compared with the reference interpretat
 memory (vlib.ref.values).  Tag definitions come from pycomm3's own upload run natively against
 the same controller (C05 checks the upload itself)."""
 from vlib.ob import Registry
+from vlib.sym import concrete
 from vlib import scen, chplugin
 from vlib.ref import values as V
 from vlib.ref import codec as R
@@ -155,7 +156,7 @@ add("array/mixed", ["DA", "I2"], 0, lambda xs: [("DA[3]", "DA", ("one", 0xC4, 12
 for t, code, nb in (("S1", 0xC2, 8), ("I1", 0xC3, 16), ("D1", 0xC4, 32), ("L1", 0xC5, 64)):
     for lo in range(0, nb, 16):
         hi = min(nb, lo + 16)
-        add(f"bit/{t}.b/{lo}-{hi - 1}", [t], 1, lambda xs, t=t, code=code: [(BITREQ[t][xs[0]], t, ("intbit", code, 0, xs[0], "BOOL"))],
+        add(f"bit/{t}.b/{lo}-{hi - 1}", [t], 1, lambda xs, t=t, code=code: [(BITREQ[t][concrete(xs[0])], t, ("intbit", code, 0, xs[0], "BOOL"))],
             idx_pre=lambda xs, lo=lo, hi=hi: lo <= xs[0] < hi, timeout=240, desc=f"{t}: all memory values, bit number symbolic {lo}..{hi - 1}")
 add("bit/DA[2].7+D1.0", ["DA", "D1"], 0, lambda xs: [("DA[2].7", "DA", ("intbit", 0xC4, 8, 7, "BOOL")), ("D1.0", "D1", ("intbit", 0xC4, 0, 0, "BOOL")),
                                                     ("D1.31", "D1", ("intbit", 0xC4, 0, 31, "BOOL"))])
@@ -180,7 +181,7 @@ add("struct/O1-nested", ["O1"], 0, lambda xs: [("O1", "O1", ("one", OUTER, 0, No
 add("struct/O1.inner.r+O1.w", ["O1"], 0, lambda xs: [("O1.inner.r", "O1", ("one", 0xCA, 12, None, "REAL")), ("O1.w", "O1", ("one", 0xC3, 18, None, "INT")),
                                                       ("O1.inner", "O1", ("one", T1, 0, None, "UDT1"))], timeout=240)
 add("struct/U1.arr{2}", ["U1"], 0, lambda xs: [("U1.arr{2}", "U1", ("list", 0xC3, 6, 2, "INT[2]"))])
-add("struct/U1.a.bit", ["U1"], 1, lambda xs: [(BITREQ["U1.a"][xs[0]], "U1", ("intbit", 0xC4, 0, xs[0], "BOOL"))], idx_pre=lambda xs: 0 <= xs[0] < 32, timeout=240)
+add("struct/U1.a.bit", ["U1"], 1, lambda xs: [(BITREQ["U1.a"][concrete(xs[0])], "U1", ("intbit", 0xC4, 0, xs[0], "BOOL"))], idx_pre=lambda xs: 0 <= xs[0] < 32, timeout=240)
 
 # ---- program-scoped tags
 add("program/PD", ["Program:Main.PD"], 0, lambda xs: [("Program:Main.PD", "Program:Main.PD", ("one", 0xC4, 0, None, "DINT"))])
